@@ -160,7 +160,11 @@ Fixpoint add_move_children (cs : list desc) (i : index) : index :=
         match find_index (fun m => String.eqb (d_dig m) (d_dig cd) && (ann_len m =? 0)%nat)
                          (top i) with
         | Some mi => mkI (swap_remove mi (top i)) (child i ++ [cd])
-        | None => i
+        | None =>
+            (* a child that is in neither list is tracked as a child, as when the index is loaded from storage *)
+            if existsb (fun m => String.eqb (d_dig m) (d_dig cd)) (top i)
+               || existsb (fun c => String.eqb (d_dig c) (d_dig cd)) (child i)
+            then i else mkI (top i) (child i ++ [cd])
         end in
       add_move_children r i'
   end.
